@@ -90,6 +90,10 @@ EVENTS = {
                 ['B1', 'B2'], 'invalid:invalid definition'),
     # a unit without definition in a type with reference unit (no scale)
     'xnone': (['unit', 'B1', 'xnone', ['none']], ['B1'], 'valid'),
+    # an exponent of two digits (default reference symbol 'x0¹²')
+    'S12': (['dtype', 'S12', [['B1', 12]], None, None], ['B1'], 'valid'),
+    'x1^12': (['unit', 'S12', None, ['derive', ['x1']]], ['S12', 'x1'],
+              'valid'),
     # the same in a type with a quantum
     'Q1': (['type', 'Q1', 'q0', 'D:0.05'], [], 'valid'),
     'qnone': (['unit', 'Q1', 'qnone', ['none']], ['Q1'], 'valid'),
